@@ -142,8 +142,9 @@ class CentroidCrop(L.LightningModule):
             ex["image"] = torch.cat([image] * n)
             ex["centroid"] = centered_centroid
             ex["centroid_val"] = centroid_val
-            ex["frame_idx"] = torch.Tensor([fidx] * n)
-            ex["video_idx"] = torch.Tensor([vidx] * n)
+            # keep the indices integer: a float32 tensor cannot represent frame indices > 2**24
+            ex["frame_idx"] = torch.as_tensor(fidx).repeat(n)
+            ex["video_idx"] = torch.as_tensor(vidx).repeat(n)
             ex["instance_bbox"] = instance_bbox.squeeze(dim=0).unsqueeze(dim=1)
             ex["instance_image"] = instance_image.unsqueeze(dim=1)
             ex["orig_size"] = torch.cat([torch.Tensor(sz)] * n)
